@@ -286,8 +286,10 @@ structure Result where
 entries. -/
 def closeFuel (dict : Dict) : Nat := dict.length + 1
 
-/-- Go: `ms.resolveIdentities()` on link state `lk`, starting from `Values` as in `vals0`
-(all empty on a fresh `Modules`). -/
+/-- Go: `ms.resolveIdentities()` on link state `lk`, starting from `Values` as in `vals0`.
+`resolveIdentities` first sets `Values = nil` for every identity of every loaded (sub)module
+(commit 41df8a9), so Go always runs with `vals0 = fun _ => []` (as `run` does); the parameter is
+kept because the theorems also cover a start from the lists of an earlier run. -/
 def resolveIdentities (o : Oracle) (r : Registry) (lk : Link) (vals0 : Vtx → List Vtx) : Option Result :=
   match buildDict o r lk with
   | none => none
